@@ -242,6 +242,10 @@ def run(rep, tier="quick", srcdir=None, only=None):
         rule_drain(rep, prog, q)
     if want("C02-SB5"):
         rule_barrier_flag(rep, prog, q)
+    if want("C05-WR3"):
+        # a parked dispatch_sync waiter must only be released by the real lock hand-off (shared with C05)
+        from . import C05
+        C05.rule_WR3(rep, ir.Program(build.facts_for(["shims/lock"], srcdir=srcdir)))
 
 
 MANIFEST = {
